@@ -732,7 +732,8 @@ def make_lfn_entry(dir_name: str,
                              "no need to create an LFN entry.",
                              errno=errno.EINVAL)
 
-    if len(dir_name) > 255:
+    if len(dir_name) > 255 * 2:
+        # dir_name is UTF-16 encoded here, 255 code units are allowed
         raise PyFATException("Long file name exceeds 255 "
                              "characters, not supported.",
                              errno=errno.ENAMETOOLONG)
